@@ -3,5 +3,6 @@
 
 def run(run):
     run.model_check("MC_Duration")
+    run.model_check("MC_BigNat")          # arbitrary-precision products and rounding shifts (float factors)
     run.drive([("rs", 8), ("py", 8)])
     return run
